@@ -24,7 +24,13 @@ type Sandbox struct {
 }
 
 func NewSandbox(base, bin string) (*Sandbox, error) {
-	s := &Sandbox{Base: base, WS: filepath.Join(base, "ws"), Root: filepath.Join(base, "root"), Home: filepath.Join(base, "home"),
+	return NewSandboxAt(base, filepath.Join(base, "ws"), bin)
+}
+
+// NewSandboxAt: a "machine" with its own cache root and home that works on the checkout at ws
+// (two machines that share one workspace path share the remote cache namespace).
+func NewSandboxAt(base, ws, bin string) (*Sandbox, error) {
+	s := &Sandbox{Base: base, WS: ws, Root: filepath.Join(base, "root"), Home: filepath.Join(base, "home"),
 		ExtDir: filepath.Join(base, "ext"), Trace: filepath.Join(base, "ext", "trace"), Bin: bin, rendered: map[string]string{}}
 	for _, d := range []string{s.WS, s.Root, s.Home, s.ExtDir} {
 		if err := os.MkdirAll(d, 0o755); err != nil {
@@ -32,6 +38,19 @@ func NewSandbox(base, bin string) (*Sandbox, error) {
 		}
 	}
 	return s, os.WriteFile(s.Trace, nil, 0o644)
+}
+
+// ForgetRendered makes the next Sync rewrite every file (another machine may have touched the shared checkout).
+func (s *Sandbox) ForgetRendered() { s.rendered = map[string]string{} }
+
+// WipeOutputs removes every declared output from the workspace (a fresh checkout has none).
+func (s *Sandbox) WipeOutputs(w WS) {
+	for i := range w.Targets {
+		files, dirs := w.Targets[i].AllOutPaths()
+		for _, p := range append(files, dirs...) {
+			_ = os.RemoveAll(filepath.Join(s.WS, p))
+		}
+	}
 }
 
 // Sync writes the rendered workspace, removing previously rendered files that are gone. Outputs are never touched.
